@@ -109,6 +109,7 @@ func Array2D.Fill
   loop 0 invariant mark(y1) && y1 + 1 <= y && y <= y2 + 1 && same(firstRow, a.slice[x1 + y1*a.width : 1 + x2 + y1*a.width])
   loop 0 invariant forall i :: {mark(i)} mark(i) && 0 <= i && i <= x2 - x1 ==> firstRow[i] == value
   loop 0 invariant forall i, j :: {mark(i), mark(j)} mark(i) && mark(j) && 0 <= i && i < a.width && 0 <= j && j < a.height ==> a.getUnchecked(i, j) == ite(x1 <= i && i <= x2 && y1 <= j && j < y, value, old(a.getUnchecked(i, j)))
+  loop 0 decreases y2 + 1 - y
 
 func Array2D.Clone
   property C08
